@@ -576,6 +576,11 @@ class Gen:
                 opts["cache_scope"] = "NONE"
             elif k == 2:
                 opts["cache_scope"] = "CSE"
+            if ch.coin(0.35, "subrun-limits"):
+                # the subrun's root job competes for a scarce resource: sibling subruns queue up
+                # and restart from the pending-limits queue
+                opts["limits"] = ["sr"]
+                self.prog.limits["sr"] = 1
             return ("subrun", inner, opts)
         if p == "tags":
             inner = self.gen_expr(kind, env, owner, depth + 1)
